@@ -227,6 +227,47 @@ def run(tier, seed, replay=None):
                                        f"matches={got}, whole-word-prefix/equality says {want}", "case": case,
                                        "signature_text": f"literal pattern={case['pattern']!r} exact={exact} words={case['words']!r}"})
 
+        # ------------------------------------------------ last match wins, on each matcher of config.py
+        FIELD = {"words": "rules", "redirect": "redirect_rules", "after": "after_rules", "mcp": "mcp_rules", "after_mcp": "after_mcp_rules"}
+
+        def matcher_case(case):
+            """case: {'matcher': words|redirect|after|mcp|after_mcp, 'config': text, 'input': words | target | tool}"""
+            kind = case["matcher"]
+            cfg = C.parse_config(sc.sub(case["config"]))
+            inp = [sc.sub(w) for w in case["input"]] if isinstance(case["input"], list) else sc.sub(case["input"])
+
+            def call(c):
+                if kind == "words":
+                    m = C._match_words(list(inp), c, cwd)
+                elif kind == "redirect":
+                    m = C.match_redirect(inp, c, cwd)
+                elif kind == "after":
+                    return C.match_after(list(inp), c, cwd)
+                elif kind == "mcp":
+                    m = C.match_mcp(inp, c)
+                else:
+                    return C.match_after_mcp(inp, c)
+                return None if m is None else (m.decision, m.pattern, m.message)
+
+            rules = getattr(cfg, FIELD[kind])
+            singles = [call(C.Config(**{FIELD[kind]: [r]}, aliases=cfg.aliases)) for r in rules]
+            firing_ = [i for i, x in enumerate(singles) if x is not None]
+            want = singles[firing_[-1]] if firing_ else None
+            got = call(cfg)
+            out.count("c07.matcher", f"{kind}:{'hit' if want is not None else 'none'}")
+            bad = None
+            if got != want:
+                bad = f"{kind}: the full list answers {got!r}, its last firing rule alone {want!r}"
+            else:
+                for j in [i for i in range(len(rules)) if i not in firing_][:4]:
+                    less = C.Config(**{FIELD[kind]: [r for i, r in enumerate(rules) if i != j]}, aliases=cfg.aliases)
+                    if call(less) != got:
+                        bad = f"{kind}: deleting the non-firing rule #{j} changes the answer from {got!r} to {call(less)!r}"
+                        break
+            if bad:
+                out.violations.append({"kind": "matcher", "what": bad, "case": case,
+                                       "signature_text": f"matcher {kind} input={case['input']!r} config={case['config']!r}"})
+
         # ------------------------------------------------ replay
         if replay:
             case = replay.get("case")
@@ -235,6 +276,9 @@ def run(tier, seed, replay=None):
                 out.case(case)
             elif case and "pattern" in case:
                 literal_case(case)
+                out.case(case)
+            elif case and "matcher" in case:
+                matcher_case(case)
                 out.case(case)
             out.extra["rule"] = "replay of one recorded case"
             return out
@@ -267,6 +311,12 @@ def run(tier, seed, replay=None):
             wire = {k: rc.enc_rules(getattr(cfg, k)) for k in ("rules", "redirect_rules", "after_rules", "mcp_rules", "after_mcp_rules")}
             aliases = [[k, v] for k, v in cfg.aliases.items()]
             out.count("rules.len", len(cfg.rules))
+            for kind_, inp_ in (("words", rng.choice(pool)), ("after", rng.choice(pool)), ("mcp", rng.choice(TOOLS)),
+                                ("after_mcp", rng.choice(TOOLS)),
+                                ("redirect", rng.choice(["out/a", "out/deep/b", "/tmp/x.log", "~/n/f", "src/main.py", "x.log"]))):
+                mcase = {"matcher": kind_, "config": text_t, "input": inp_}
+                matcher_case(mcase)
+                out.case(mcase, nontrivial=len(getattr(cfg, FIELD[kind_])) >= 2)
             for _ in range(6):
                 ws = [sc.sub(w) for w in (rng.choice(pool) if rng.random() < 0.7 else gen_words(rng))]
                 if rng.random() < 0.1:
